@@ -149,6 +149,16 @@ def run_case(ctx, case):
                 if lk.get(form) != want:
                     ctx.fail("command-file-lookup:%s:%s-instead-of-%s" % (form, lk.get(form), want), {"probe": probe, "command": cmdname})
                     break
+            for form, cmdname in (("eems2-user-Not", "Not"), ("eems2-user-Max", "Max")):
+                e = ref["library"].get(cmdname)
+                want = "loaded:%s.%s" % (e["module"], cmdname) if e else "CommandDoesNotExist:%s" % cmdname
+                if lk.get(form) != want:
+                    ctx.fail("command-file-lookup:user-command-named-like-an-eems2-one:%s-instead-of-%s" % (str(lk.get(form)).split(":")[0], want.split(":")[0]), {"probe": probe, "command": cmdname, "got": lk.get(form), "want": want})
+                    break
+            for form, v in lk.items():
+                if form.startswith("typo-") and not v.startswith("CommandDoesNotExist:"):
+                    ctx.fail("command-file-lookup:misspelt-name:%s" % v.split(":")[0], {"probe": probe, "form": form, "got": v[:200]})
+                    break
             # names resolve to the requested libraries only
             for name, e in ref["library"].items():
                 if not any(e["module"] == lib or e["module"].startswith(lib + ".") for lib in probe):
@@ -174,8 +184,8 @@ def run_case(ctx, case):
             added = sorted(set(lb) - set(la))
             removed = sorted(set(la) - set(lb))
             changed = sorted(n for n in la if n in lb and la[n] != lb[n])
-            dev = "extra-commands" if added else "missing-commands" if removed else "resolves-differently" if changed else "command-line-tool-behaves-differently" if a.get("cli") != b.get("cli") else "duplicate-list-differs"
-            extra = {"added": added[:5], "added_from": sorted(set(lb[n]["module"] for n in added))[:3], "removed": removed[:5], "changed": changed[:5]}
+            dev = "extra-commands" if added else "missing-commands" if removed else "resolves-differently" if changed else "command-file-lookup-differs" if a.get("lookups") != b.get("lookups") else "command-line-tool-behaves-differently" if a.get("cli") != b.get("cli") else "duplicate-list-differs"
+            extra = {"added": added[:5], "added_from": sorted(set(lb[n]["module"] for n in added))[:3], "removed": removed[:5], "changed": changed[:5], "lookups_differing": sorted(k for k in (a.get("lookups") or {}) if (a.get("lookups") or {}).get(k) != (b.get("lookups") or {}).get(k))[:4]}
         prefix = any(any(t != p and (t.startswith(p) or p.startswith(t)) for p in probe) for t in touched + [s[2] for s in history if s[0] == "define"])
         ctx.fail("history-dependent:%s:%s" % (dev, "prefix-related-name" if prefix else "unrelated-name"), dict(extra, probe=probe, history=history))
         return
